@@ -269,8 +269,9 @@ fn c05_check_file(fc: &FileCase, idx: u64, rep: &mut Reporter, cover: &mut crate
                         }
                         let hint = rawp.iter().zip(pc.prototype.iter()).map(|(v, d)| crate::readback::model_f64(v, &d.data_type).abs()).filter(|x| x.is_finite()).fold(1.0, f64::max);
                         // non-finite inputs to a pose (also the identity pose of a cloud without one) make matrix and
-                        // quaternion forms legitimately disagree (inf*0): not judged
-                        let skip_pose = o.pose() && !rawp.iter().zip(pc.prototype.iter()).all(|(v, d)| crate::readback::model_f64(v, &d.data_type).is_finite());
+                        // quaternion forms legitimately disagree (inf*0), and so do magnitudes (> 1e100) whose intermediate
+                        // products overflow in one form but not in the other: not judged
+                        let skip_pose = o.pose() && (hint > 1e100 || !rawp.iter().zip(pc.prototype.iter()).all(|(v, d)| crate::readback::model_f64(v, &d.data_type).is_finite()));
                         if skip_pose {
                             rep.stat("points_skipped_nonfinite_pose", 1);
                             continue;
